@@ -14,6 +14,7 @@ Section Top.
   Variable PT : ptab V.
   Variable ev : node V -> res V.
   Hypothesis eof_not_trigger : pt_trigger PT KEof = false.
+  Hypothesis num_trigger : pt_numnum PT || pt_trigger PT KNum = true.
 
   (** Ok only if the whole input (after white-space removal) lexes to the printed form of one
       well-formed surface tree, and the value is that of its tree *)
@@ -32,7 +33,7 @@ Section Top.
     run LT conv PT ev s p = ev (desugar PT p sx).
   Proof.
     intros Ws Et. unfold run, ast_of. rewrite Et.
-    rewrite (parser_complete PT p sx Ws (fun _ => eof_not_trigger)). reflexivity.
+    rewrite (parser_complete PT p num_trigger sx Ws (fun _ => eof_not_trigger)). reflexivity.
   Qed.
 
   (** anything that is not the printed form of a well-formed tree is rejected *)
